@@ -156,7 +156,22 @@ func writeImageMaskData(w io.Writer, img image.Image) error {
 }
 
 // ExtractMask extracts an image mask from a PDF stream.
-func ExtractMask(c pdf.Cursor, obj pdf.Object, _ bool) (*Mask, error) {
+func ExtractMask(c pdf.Cursor, obj pdf.Object, isDirect bool) (*Mask, error) {
+	return extractMask(c, obj, isDirect, true)
+}
+
+// maskNoAlternates: see dictNoAlternates.
+type maskNoAlternates struct{ *Mask }
+
+func extractMaskNoAlternates(c pdf.Cursor, obj pdf.Object, isDirect bool) (*maskNoAlternates, error) {
+	m, err := extractMask(c, obj, isDirect, false)
+	if err != nil {
+		return nil, err
+	}
+	return &maskNoAlternates{m}, nil
+}
+
+func extractMask(c pdf.Cursor, obj pdf.Object, _ bool, withAlternates bool) (*Mask, error) {
 	stream, err := c.Stream(obj)
 	if err != nil {
 		return nil, err
@@ -255,7 +270,9 @@ func ExtractMask(c pdf.Cursor, obj pdf.Object, _ bool) (*Mask, error) {
 
 	// drop the whole Alternates list if it exceeds MaxAlternates rather
 	// than silently truncate
-	if alts, err := pdf.Optional(c.Array(dict["Alternates"])); err != nil {
+	if !withAlternates {
+		// an alternate image: alternates of alternates are not allowed
+	} else if alts, err := pdf.Optional(c.Array(dict["Alternates"])); err != nil {
 		return nil, err
 	} else if len(alts) <= limits.MaxAlternates {
 		for i, altObj := range alts {
